@@ -117,6 +117,24 @@ def check_execution(c, sc, answers, res, nm, rec, out, case):
         else:
             if (g[0], g[3], g[4]) != (r[0], r[3], r[4]):
                 V('inserted', 'data', 'inserted atom %d is %r, the replacement pattern says element %s charge %g group %d' % (j, g, r[0], r[3], r[4])); break
+    if sc.get('replace_all') and not empty:
+        # replace-all mode removes and re-inserts the atoms common to both patterns: they must come back where they were
+        cell = c['cell']; inv = np.linalg.inv(cell)
+        full = shared_map(c['pel'], c['pp'], c['rel'], c['rpos'])
+        P_all = np.vstack([c['pp'], c['rpos']]) if len(c['rel']) else c['pp']
+        cp = cconst(P_all, *resolve_hints(c['pp'])) if len(c['pp']) > 1 else 1.0
+        tail = [(x[0], np.array(x[-1])) for x in oa[len(oa) - len(sel) * len(ins_idx):]]
+        for mi in sel:
+            eps = kabsch(c['pp'], np.asarray(rec[1][mi]))[0]
+            for i, j in full.items():
+                p0 = np.asarray(s.positions[idxs[mi][j]])
+                ok = False
+                for e, q in tail:
+                    d = (q - p0) @ inv
+                    if e == c['rel'][i] and np.abs((d - np.round(d)) @ cell).max() <= 1e-6 + 2 * cp * eps:
+                        ok = True; break
+                if not ok:
+                    V('retained', 'replace-all-moved', 'replace_all: the %s atom common to both patterns did not come back at %r (mod lattice)' % (c['rel'][i], np.round(p0, 4).tolist())); break
     ce = collections.Counter(x[0] for x in oa); ci = collections.Counter(atom_rec(s, a)[0] for a in range(N))
     delta = collections.Counter(c['rel']); delta.subtract(collections.Counter(c['pel']))
     for e in set(ce) | set(ci) | set(delta):
